@@ -16,6 +16,13 @@ from .man import Man
 from .cov import Cov
 
 
+def _rebuild(cls, coord):
+    """Unpickling helper (see StateVector.__reduce__)"""
+    obj = np.ndarray.__new__(cls, (6,), buffer=np.array(coord, dtype=float), dtype=float)
+    object.__setattr__(obj, "_data", {})
+    return obj
+
+
 class StateVector(np.ndarray):
     """Coordinate representation"""
 
@@ -57,24 +64,14 @@ class StateVector(np.ndarray):
     def __reduce__(self):
         """For pickling
 
-        see http://stackoverflow.com/questions/26598109
+        The array is rebuilt on a buffer, as the constructor does: an array restored by numpy
+        owns its data (``base`` is ``None``) and could not be copied or converted afterwards.
         """
-        reconstruct, clsinfo, state = super().__reduce__()
-
-        new_state = {
-            "basestate": state,
-            "data": self._data,
-        }
-
-        return reconstruct, clsinfo, new_state
+        return _rebuild, (self.__class__, np.array(self)), self._data
 
     def __setstate__(self, state):
-        """For pickling
-
-        see http://stackoverflow.com/questions/26598109
-        """
-        super().__setstate__(state["basestate"])
-        object.__setattr__(self, "_data", state["data"])
+        """For pickling"""
+        object.__setattr__(self, "_data", state)
 
     def copy(self, *, frame=None, form=None, same=None):
         """Provide a new object of the same point in space-time. Optionally,
